@@ -7,7 +7,7 @@ use crate::sut::{self, BuildErr, SutErr};
 use crate::with_d;
 use std::time::Instant;
 
-pub const RULE: &str = "cases = accepted connected graphs with D=1..6, L=1..5 (so D*L covers odd and even values), points whose Box-Muller coordinates a in (0,1) include 1e-300, 2^-53, 1-2^-53 and b in [0,1) includes 0, 1/8, 1/4, 1/2, 3/4, 1-2^-53. oracle: component n=l*D+i of the metadata q_vectors equals sqrt(-2 ln a_j) cos(2 pi b_j) (n even) or sin (n odd) with j = n div 2 and the pair at coordinates 2E-1+2j, 2E+2j; absolute tolerance 2e-14*r; for odd D*L the last sine is unused. non-trivial = D*L odd or L>=2; distinct = distinct case encodings";
+pub const RULE: &str = "cases = accepted connected graphs with D=1..6, L=1..5 (so D*L covers odd and even values), points whose Box-Muller coordinates a in (0,1) include 1e-300, 2^-53, 1-2^-53 and b in [0,1) includes 0, 1/8, 1/4, 1/2, 3/4, 1-2^-53. oracle: component n=l*D+i of the metadata q_vectors equals sqrt(-2 ln a_j) cos(2 pi b_j) (n even) or sin (n odd) with j = n div 2 and the pair at coordinates 2E-1+2j, 2E+2j; absolute tolerance 2e-14*r; for odd D*L the last sine is unused. supplementary statistical stage: for 10 (D,L) configurations the sample mean, variance and every pairwise covariance of the D*L Gaussian components over 2e5 (thorough 2e6) uniform points must agree with N(0,1) independent components within 6.5 standard errors. non-trivial = D*L odd or L>=2; distinct = distinct case encodings";
 
 pub fn gen_case(t: &mut Tape, tier: Tier) -> Option<Phys> {
     let opts = PhysOpts { max_e: tier.pick(8, 9), max_l: 5, min_omega: 0.15, dmax: 6, max_ops: 1, profile: gen::PointProfile { u_w: [0.6, 0.4, 0.0, 0.0], xi_w: [0.3, 0.0, 0.7, 0.0], lambda_tail: 0.0, bm_extreme: 0.35 } };
@@ -76,12 +76,97 @@ pub fn check(c: &Phys, ctx: &mut Ctx) -> Result<(), Failure> {
     phys::validate_opt(c, true)?;
     with_d!(c.g.d, check_d(c, ctx))
 }
+/// corollary of the property: for uniform points the D*L components are standard normal and uncorrelated.
+/// Sample moments over N uniform points per (D, L) configuration; thresholds at 6.5 standard errors.
+fn moments_stage(tier: Tier, seed: u64, stats: &mut engine::Stats) -> serde_json::Value {
+    use rand::{Rng, SeedableRng};
+    let n = tier.pick(200_000usize, 2_000_000);
+    let mut configs = 0;
+    let mut worst: f64 = 0.0;
+    fn one<const D: usize>(l: usize, n: usize, seed: u64, worst: &mut f64) -> Option<String> {
+        // massive banana with l loops: always accepted with weights D/2 + 0.3
+        let g = crate::oracle::graph::G { edges: (0..=l).map(|_| (0u8, 1u8)).collect(), massive: vec![true; l + 1], weights: vec![D as f64 / 2.0 + 0.3; l + 1], externals: vec![0, 1], d: D };
+        let mut sig = vec![vec![0isize; l]; l + 1];
+        for i in 0..l {
+            sig[i][i] = 1;
+            sig[l][i] = -1;
+        }
+        let s = sut::build::<D>(&g, sig).ok()?;
+        let ne = l + 1;
+        let dim = s.get_dimension();
+        let k = D * l;
+        let ed = sut::edge_data::<D>(&g.massive, &vec![1.0; ne], &vec![vec![0.3; D]; ne]);
+        let mut rng = rand::rngs::StdRng::seed_from_u64(seed ^ ((D * 31 + l) as u64));
+        let (mut m1, mut m2) = (vec![0.0f64; k], vec![vec![0.0f64; k]; k]);
+        let mut cnt = 0usize;
+        let st = sut::settings(None, false, true);
+        for _ in 0..n {
+            let x: Vec<f64> = (0..dim).map(|_| rng.gen::<f64>()).collect();
+            let Ok(r) = sut::sample_t(&s, &x, ed.clone(), &st, &sut::NoLog) else { continue };
+            let Some(md) = r.metadata else { continue };
+            let q: Vec<f64> = md.q_vectors.iter().flat_map(|v| (0..D).map(|i| v[i]).collect::<Vec<_>>()).collect();
+            if q.len() != k || q.iter().any(|v| !v.is_finite()) {
+                continue;
+            }
+            cnt += 1;
+            for a in 0..k {
+                m1[a] += q[a];
+                for b in a..k {
+                    m2[a][b] += q[a] * q[b];
+                }
+            }
+        }
+        if cnt < n / 2 {
+            return None;
+        }
+        let nn = cnt as f64;
+        let thr = 6.5;
+        for a in 0..k {
+            let mean = m1[a] / nn;
+            *worst = worst.max(mean.abs() * nn.sqrt() / thr);
+            if mean.abs() * nn.sqrt() > thr {
+                return Some(format!("D={D} L={l}: Gaussian component {a} has mean {mean:.5} over {cnt} uniform points (|z| = {:.1})", mean.abs() * nn.sqrt()));
+            }
+            for b in a..k {
+                let c = m2[a][b] / nn - (m1[a] / nn) * (m1[b] / nn);
+                let (want, se) = if a == b { (1.0, (2.0 / nn).sqrt()) } else { (0.0, (1.0 / nn).sqrt()) };
+                let z = (c - want).abs() / se;
+                *worst = worst.max(z / thr);
+                if z > thr {
+                    return Some(format!("D={D} L={l}: covariance of Gaussian components ({a},{b}) is {c:.5}, expected {want} (|z| = {z:.1}, N = {cnt}): components are not independent standard normals"));
+                }
+            }
+        }
+        Some(String::new())
+    }
+    let combos: &[(usize, usize)] = &[(1, 1), (1, 4), (2, 3), (3, 2), (3, 3), (4, 2), (5, 1), (5, 3), (6, 2), (3, 5)];
+    for &(d, l) in combos {
+        let r = match d {
+            1 => one::<1>(l, n, seed, &mut worst),
+            2 => one::<2>(l, n, seed, &mut worst),
+            3 => one::<3>(l, n, seed, &mut worst),
+            4 => one::<4>(l, n, seed, &mut worst),
+            5 => one::<5>(l, n, seed, &mut worst),
+            _ => one::<6>(l, n, seed, &mut worst),
+        };
+        match r {
+            Some(m) if m.is_empty() => configs += 1,
+            Some(m) => {
+                stats.failures.push((Failure::new("gaussian-moments", m), serde_json::json!({"note": "statistical stage, no single replayable point", "D": d, "L": l, "N": n, "seed": seed})));
+            }
+            None => {}
+        }
+    }
+    serde_json::json!({"moment_test_configurations": configs, "moment_test_points_each": n, "moment_test_worst_z_over_threshold": worst})
+}
+
 pub fn run(tier: Tier, seed: u64) -> i32 {
     let t0 = Instant::now();
     let sp = Spec { id: "C13", rule: RULE, tape_len: 280, cases: tier.pick(150_000, 1_500_000), gen: gen_case, check, max_shrink_iters: 3000, shards: 16 };
     let mut stats = engine::run_spec(&sp, tier, seed);
     engine::run_regressions::<Phys>("C13", check, &mut stats);
-    engine::finish("C13", tier, seed, RULE, stats, t0, serde_json::json!({}), &["q_vectors observed through return_metadata", "reference Box-Muller evaluated with std f64 functions, tolerance 2e-14*r covers the rounding of 2*pi*b"])
+    let extra = moments_stage(tier, seed, &mut stats);
+    engine::finish("C13", tier, seed, RULE, stats, t0, extra, &["q_vectors observed through return_metadata", "reference Box-Muller evaluated with std f64 functions, tolerance 2e-14*r covers the rounding of 2*pi*b"])
 }
 pub fn replay(path: &str) -> i32 {
     engine::replay_file::<Phys>("C13", path, check)
